@@ -44,7 +44,11 @@ def gen_cases(rng, tier):
         if wide:
             data[rng.randrange(nv)] = rng.choice([5 * 10**9, 10**12, 3 * 10**8 + 1, 10**13])
         cases.append({'dims': dims, 'data': data, 'T': rng.choice([1.0, 77.0, 300.0, 650.0, 1000.0, 2000.0, rng.uniform(0.5, 2000)]),
-                      'thr': rng.choice([1e20, 1e7, 1.0, 0.2]), 'pre_call': rng.random() < 0.5, 'layout': rng.choice(['C', 'C', 'F', 'view'])})
+                      'thr': rng.choice([1e20, 1e7, 1.0, 0.2]), 'pre_call': rng.random() < 0.5, 'layout': rng.choice(['C', 'C', 'F', 'view']),
+                      # densities read from files are floating point, sometimes single precision; thr None = the default threshold of the graph builder
+                      'dtype': rng.choice(['int', 'int', 'float64', 'float32'])})
+        if rng.random() < 0.3:
+            cases[-1]['thr'] = None
     return cases
 
 
@@ -52,7 +56,7 @@ def impl(case):
     from gemdat.volume import Volume
     from scipy.constants import physical_constants
     lat = synth.make_lattice([[5, 0, 0], [0, 6, 0], [0, 0, 7]])
-    arr = np.array(case['data'], dtype=int).reshape(case['dims'])
+    arr = np.array(case['data'], dtype={'int': int, 'float64': np.float64, 'float32': np.float32}[case.get('dtype', 'int')]).reshape(case['dims'])
     # the same grid in another memory layout (Fortran order, or a transposed view): values by index are identical
     if case.get('layout') == 'F':
         arr = np.asfortranarray(arr)
@@ -64,7 +68,7 @@ def impl(case):
     if case.get('pre_call'):
         # an earlier graph request on the same object with other settings (as optimal_path makes) must not influence this one
         fe.free_energy_graph(max_energy_threshold=1e7)
-    G = fe.free_energy_graph(max_energy_threshold=case['thr'], diagonal=False)
+    G = fe.free_energy_graph(diagonal=False) if case['thr'] is None else fe.free_energy_graph(max_energy_threshold=case['thr'], diagonal=False)
     nodes = set(G.nodes)
     idx = list(np.ndindex(*case['dims']))
     return {'fe': [float(v) for v in fe.data.ravel()], 'nodes': [tuple(i) in nodes for i in idx],
@@ -85,24 +89,27 @@ def oracle(case, out):
     kT = out['kB'] * case['T']
     vis = data > 0
     want = -kT * np.log(data[vis] / N)
-    if not np.allclose(fe[vis], want, rtol=1e-12, atol=1e-15):
+    f32 = case.get('dtype') == 'float32'
+    thr = 1e20 if case['thr'] is None else case['thr']          # 1e20 is the documented default threshold
+    maxf = float(np.finfo(np.float32).max) if f32 else MAXF      # "largest finite value" of the precision the density came in
+    if not np.allclose(fe[vis], want, rtol=2e-6 if f32 else 1e-12, atol=2e-6 * kT if f32 else 1e-15):
         fs.append(('free-energy/formula', f'F differs from -kT ln p by {np.abs(fe[vis] - want).max()}'))
     rec = np.exp(-fe[vis] / kT)
-    if abs(rec.sum() - 1) > 1e-9 or not np.allclose(rec, data[vis] / N, rtol=1e-9):
+    if abs(rec.sum() - 1) > (1e-4 if f32 else 1e-9) or not np.allclose(rec, data[vis] / N, rtol=1e-4 if f32 else 1e-9):
         fs.append(('free-energy/exp-recovers', 'exp(-F/kT) does not recover the probabilities'))
     order = np.argsort(data[vis])
     f_sorted = fe[vis][order]
     d_sorted = data[vis][order]
     for a in range(len(order) - 1):
-        if d_sorted[a] < d_sorted[a + 1] and f_sorted[a] < f_sorted[a + 1]:
+        if d_sorted[a] < d_sorted[a + 1] and f_sorted[a] < f_sorted[a + 1] - (1e-6 * abs(f_sorted[a + 1]) if f32 else 0.0):
             fs.append(('free-energy/monotone', 'a denser voxel has a higher free energy'))
             break
-    if (fe[~vis] != MAXF).any():
+    if (fe[~vis] != maxf).any():
         fs.append(('free-energy/unvisited-value', 'an unvisited voxel does not carry the largest finite value'))
     nodes = np.array(out['nodes'])
-    if case['thr'] <= 1e20 and nodes[~vis].any():
+    if thr <= 1e20 and nodes[~vis].any():
         fs.append(('graph/unvisited-node', 'an unvisited voxel is a node of the free-energy graph'))
-    if not np.array_equal(nodes, (fe >= 0) & (fe < case['thr'])):
+    if not np.array_equal(nodes, (fe >= 0) & (fe < thr)):
         fs.append(('graph/node-set', 'node set differs from {0 <= F < threshold}'))
     if not out['energy_attr_ok']:
         fs.append(('graph/energy-attribute', 'node energy attribute differs from the free energy of the voxel'))
@@ -110,10 +117,10 @@ def oracle(case, out):
 
 
 def coq_term(case, out):
-    if 'fe' not in out or not np.isfinite(np.array(out['fe'])).all():
-        return None
+    if 'fe' not in out or not np.isfinite(np.array(out['fe'])).all() or case.get('dtype') == 'float32':
+        return None          # single-precision densities: decided by the oracle at single-precision tolerance; the exact tie is for double precision
     fe = clist('(%s, %s)' % tuple(z(v) for v in synth.dyadic(f)) for f in out['fe'])
-    thr = '(%s, %s)' % tuple(z(v) for v in synth.dyadic(case['thr']))
+    thr = '(%s, %s)' % tuple(z(v) for v in synth.dyadic(1e20 if case['thr'] is None else case['thr']))
     return '{| counts := %s; fe := %s; thr := %s; nodes := %s |}' % (zlist(case['data']), fe, thr, clist(cbool(b) for b in out['nodes']))
 
 
@@ -126,7 +133,7 @@ def extra_coq(cases, outs, builddir):
     certs = {}
     kB = None
     for c, o in zip(cases, outs):
-        if 'fe' not in o:
+        if 'fe' not in o or c.get('dtype') == 'float32':
             continue
         kB = o['kB']
         N = sum(c['data'])
@@ -171,7 +178,7 @@ def nontrivial(case, out):
 
 
 def classify(case, out):
-    return [f'thr={case["thr"]:g}', 'has-unvisited' if 0 in case['data'] else 'all-visited', 'wide-range' if max(case['data']) >= 10**8 else 'narrow-range', 'graph-after-other-graph-request' if case.get('pre_call') else 'first-graph-request', 'layout:' + case.get('layout', 'C')]
+    return [f'thr={case["thr"]:g}' if case['thr'] is not None else 'thr=default', 'dtype:' + case.get('dtype', 'int'), 'has-unvisited' if 0 in case['data'] else 'all-visited', 'wide-range' if max(case['data']) >= 10**8 else 'narrow-range', 'graph-after-other-graph-request' if case.get('pre_call') else 'first-graph-request', 'layout:' + case.get('layout', 'C')]
 
 
 def sample(case, out):
